@@ -1044,7 +1044,7 @@ func trailingBitsOnly(line []byte, old, new byte) bool {
 
 func (rn *runner) phaseSearch(i int, r *rand.Rand) {
 	c := rn.c
-	limits := []int64{1, 1, 40, 90, 150, 300, 700, 2000, 8192, 0}
+	limits := []int64{1, 1, 40, 90, 150, 300, 700, 2000, 8192, 0, 1, 60}
 	limit := limits[i%len(limits)]
 	maxSize := int64(1 << 20)
 	dir := rn.newDir("wal")
@@ -1068,6 +1068,31 @@ func (rn *runner) phaseSearch(i int, r *rand.Rand) {
 	}()
 	// OnStart wrote #0 into the empty group.
 	es := []*elem{{meta: true, height: 0}}
+	// baseWAL.Write stamps the wall-clock time, whose varint length changes the line length by a
+	// few bytes: to keep the rotation layout a function of the seed, the real Write/WriteSync are
+	// used where the layout cannot depend on line lengths (no rotation, or rotation after every
+	// line); otherwise messages go through a WALWriter on the WAL's own group with explicit times
+	// (exactly what baseWAL.Write does) and the real WriteMetaSync / FlushAndSync.
+	useAPI := limit <= 1
+	enc := walm.NewWALWriter(wal.Group(), maxSize)
+	writeMsg := func(m walm.WALMessage, kind string) {
+		var err error
+		switch {
+		case useAPI && r.IntN(3) == 0:
+			err = wal.WriteSync(m)
+			c.Count("wal_writesync", 1)
+		case useAPI:
+			err = wal.Write(m)
+			c.Count("wal_write", 1)
+		default:
+			err = enc.Write(walm.TimedWALMessage{Time: randTime(r), Msg: m})
+			c.Count("wal_group_writer", 1)
+		}
+		if err != nil {
+			panic(err)
+		}
+		es = append(es, &elem{msg: msgBytes(m), kind: kind, val: m})
+	}
 	nH := 3 + r.IntN(c.N(8, 20))
 	perH := []int{0, 1, 2, 3, 6}[r.IntN(5)]
 	maxPayload := []int{0, 20, 120, 600}[r.IntN(4)]
@@ -1082,18 +1107,7 @@ func (rn *runner) phaseSearch(i int, r *rand.Rand) {
 		}
 		for b := 0; b < nm; b++ {
 			m, kind := randMsg(r, maxPayload)
-			var err error
-			if r.IntN(3) == 0 {
-				err = wal.WriteSync(m)
-				c.Count("wal_writesync", 1)
-			} else {
-				err = wal.Write(m)
-				c.Count("wal_write", 1)
-			}
-			if err != nil {
-				panic(err)
-			}
-			es = append(es, &elem{msg: msgBytes(m), kind: kind, val: m})
+			writeMsg(m, kind)
 		}
 		h++
 		if r.IntN(10) == 0 {
@@ -1108,10 +1122,7 @@ func (rn *runner) phaseSearch(i int, r *rand.Rand) {
 	// trailing messages of the unfinished height
 	for b := r.IntN(3); b > 0; b-- {
 		m, kind := randMsg(r, maxPayload)
-		if err := wal.Write(m); err != nil {
-			panic(err)
-		}
-		es = append(es, &elem{msg: msgBytes(m), kind: kind, val: m})
+		writeMsg(m, kind)
 	}
 	if err := wal.FlushAndSync(); err != nil {
 		panic(err)
@@ -1379,6 +1390,10 @@ func run(c *vf.Ctx) {
 	c.RequireCounter("corruption_b64-trailing-bits", 1)
 	c.RequireCounter("corruption_meta-content", 100)
 	c.RequireCounter("layouts", 20)
+	c.RequireCounter("wal_write", 20)
+	c.RequireCounter("wal_writesync", 10)
+	c.RequireCounter("wal_writemetasync", 50)
+	c.RequireCounter("wal_group_writer", 100)
 	c.RequireCounter("search_found", 200)
 	c.RequireCounter("marker_at_file_start", 5)
 	c.RequireCounter("marker_mid_file", 5)
